@@ -49,7 +49,16 @@ Inductive case :=
           (vis : list bool) (glue_obs deleg_obs : list name) (later_bad : bool)
   (* lab: the same, but the server echoed question [echoed] instead of [q] (right ID, any rcode) *)
 | CaseLabEcho (auth : name) (q echoed : question) (m : umsg)
-              (vis : list bool) (glue_obs deleg_obs : list name) (later_bad : bool).
+              (vis : list bool) (glue_obs deleg_obs : list name) (later_bad : bool)
+  (* lab: the server for [auth] sent referral [m] whose glue carries addresses configured on the
+     machine's own interfaces ([local] = what the host really has); what is on file in the NS-address
+     cache for the referral's hosts, the delegation cache's server list, which glue addresses were
+     dialled, and whether a query reached the socket standing in for the machine's own address *)
+| CaseLabLocal (local : list ipaddr) (level : nat) (auth : name) (q : question) (m : umsg)
+               (obs_filed : list (name * list ipaddr)) (obs_servers obs_dialled : list ipaddr) (own_queried : bool)
+  (* dnsutil.FilterRRsToZone(records owned by [owners], auth): indices kept (the filter Resolver.answer
+     applies to the upstream Answer section before anything is relayed or cached) *)
+| CaseZoneFilter (auth : name) (owners : list name) (obs_kept : list N).
 
 (* ---------------------------------------------------------------- helpers *)
 Fixpoint list_eqb {A} (eqb : A -> A -> bool) (a b : list A) : bool :=
@@ -217,6 +226,14 @@ Definition check_case (c : case) : bool :=
       else (* the message never leaves the transport: nothing of it is visible anywhere *)
         forallb negb vis && match glue with [] => true | _ => false end &&
         match deleg with [] => true | _ => false end && negb later
+  | CaseLabLocal local level auth q m filed srv dl ownq =>
+      match referral_glue false local level auth q m with
+      | Some (_, g) =>
+          same_assoc (gr_addrs4 g) filed && list_eqb ipaddr_eqb (gr_servers g) srv &&
+          forallb (fun a => mem_ip a (gr_servers g)) dl
+      | None => match filed, srv, dl with [], [], [] => true | _, _, _ => false end
+      end && negb ownq
+  | CaseZoneFilter auth owners kept => list_eqb N.eqb (kept_indices (is_sub auth) owners 0) kept
   end.
 
 Definition spec_glue_source (local : list ipaddr) (host : name) (a : ipaddr) (evs : list glue_event) : bool :=
@@ -313,4 +330,11 @@ Definition spec_case (c : case) : bool :=
             (forallb negb vis && match glue with [] => true | _ => false end &&
              match deleg with [] => true | _ => false end) &&
       negb later
+  | CaseLabLocal local level auth q m filed srv dl ownq =>
+      (* no address of one of the machine's own interfaces (nor a loopback one) is filed for an NS host,
+         listed as a server of the delegation, or dialled *)
+      forallb (fun p => forallb (spec_addr_ok local) (snd p)) filed &&
+      forallb (spec_addr_ok local) srv && forallb (spec_addr_ok local) dl && negb ownq
+  | CaseZoneFilter auth owners kept =>
+      forallb (fun i => match nth_error owners (N.to_nat i) with Some o => spec_in_zone auth o | None => false end) kept
   end.
